@@ -92,7 +92,7 @@ _given = set()
 def free_port(kind="tcp", host="0.0.0.0"):
     """a port that is free for TCP and UDP on every local address (and not handed out before)"""
     for _ in range(500):
-        p = _port_rng.randrange(20000, 60000)
+        p = _port_rng.randrange(10000, 32000)  # below the ephemeral range (32768..): no clash with outgoing connections or bind(0) users
         if p in _given:
             continue
         try:
